@@ -86,6 +86,9 @@ func readerZoo(r *rand.Rand, x []byte, dir string) []zooReader {
 		zooReader{"a refilling stream buffer whose Len() is what it holds right now (37 bytes at most)", func() io.Reader { return &streamBuf{data: x, window: 37} }},
 		zooReader{"a refilling stream buffer whose Len() and Size() are what it holds right now (4096 bytes at most)", func() io.Reader { return &sizedStreamBuf{streamBuf{data: x, window: 4096}} }},
 		zooReader{"a source with a Len() that counts what is left plus what follows its section", func() io.Reader { return &overLen{bytes.NewReader(x), len(suf)} }})
+	zoo = append(zoo,
+		zooReader{"a hesitant source: every other Read returns (0, nil), the others deliver 3 bytes", func() io.Reader { return &hesitant{data: x, chunk: 3, every: 2} }},
+		zooReader{"a hesitant source: two empty Reads (0, nil) before every piece of 61 bytes", func() io.Reader { return &hesitant{data: x, chunk: 61, every: 3} }})
 	if len(x) < 60000 { // fits a pipe's buffer: written at once, then the write end is closed
 		zoo = append(zoo, zooReader{"the read end of an os.Pipe (an *os.File that cannot seek)", func() io.Reader {
 			pr, pw, err := os.Pipe()
@@ -228,3 +231,29 @@ type overLen struct {
 }
 
 func (o *overLen) Len() int { return o.Reader.(*bytes.Reader).Len() + o.extra }
+
+// hesitant answers some Read calls with (0, nil) — "nothing happened", which
+// io.Reader allows (a non-blocking source with nothing ready yet) and which
+// callers must treat as such; never 100 of them in a row (where bufio gives
+// up with io.ErrNoProgress), but hundreds over the whole stream.
+type hesitant struct {
+	data         []byte
+	chunk, every int
+	calls        int
+}
+
+func (h *hesitant) Read(p []byte) (int, error) {
+	h.calls++
+	if len(p) == 0 {
+		return 0, nil
+	}
+	if h.calls%h.every != 0 {
+		return 0, nil
+	}
+	if len(h.data) == 0 {
+		return 0, io.EOF
+	}
+	n := copy(p, h.data[:min(h.chunk, len(h.data))])
+	h.data = h.data[n:]
+	return n, nil
+}
